@@ -548,7 +548,7 @@ func check(c *runCfg) int {
 	if ev.Assumptions == nil {
 		ev.Assumptions = []string{"go/ssa lowering faithful", "symgo encoding of Go semantics and intrinsics", "z3 sound"}
 	}
-	if err := writeJSON(filepath.Join(c.verif, "evidence", c.prop+".json"), ev); err != nil {
+	if err := writeJSON(filepath.Join(c.evidenceDir(), c.prop+".json"), ev); err != nil {
 		fmt.Fprintln(os.Stderr, "symgo: cannot write evidence:", err)
 	}
 	fmt.Printf("SUMMARY property=%s tier=%s harnesses=%d paths=%d obligations=%d proved=%d violations=%d known=%d spurious=%d inconclusive=%d queries=%d solver_s=%.1f wall_s=%.1f\n",
@@ -560,7 +560,7 @@ func writeFailEvidence(c *runCfg, t0 time.Time, msg string) {
 	ev := evidence{PropertyID: c.prop, Tier: c.tier, Seed: c.seed, Level: "model_checking",
 		Coverage: map[string]any{"evaluations": 0, "distinct_nontrivial": 0, "rule": "nothing explored: " + msg, "samples": []any{msg}},
 		WallS: round2(time.Since(t0).Seconds())}
-	writeJSON(filepath.Join(c.verif, "evidence", c.prop+".json"), ev)
+	writeJSON(filepath.Join(c.evidenceDir(), c.prop+".json"), ev)
 }
 
 func samplesOrDefault(s []any, hn []string) []any {
@@ -715,4 +715,14 @@ func hasKnownViolation(results []*sym.HarnessResult, name string) bool {
 		}
 	}
 	return false
+}
+
+// evidenceDir: /verif/evidence, unless VERIF_EVIDENCE_DIR redirects it (used by tools/try_seeded.sh so that runs
+// against a deliberately changed tree never overwrite the evidence of the real tree).
+func (c *runCfg) evidenceDir() string {
+	if d := os.Getenv("VERIF_EVIDENCE_DIR"); d != "" {
+		os.MkdirAll(d, 0o755)
+		return d
+	}
+	return filepath.Join(c.verif, "evidence")
 }
